@@ -125,8 +125,18 @@ type Grammar struct {
 	// Exclusions of listed known-finding classes (by construction).
 	// ExcludeOnBothLack: never emit `X <op> on(L) Y` where structurally neither X nor Y can carry L.
 	ExcludeOnBothLack bool
-	// Excluded counts how many times a production was re-drawn because of an exclusion.
-	Excluded int
+	// ExcludeIgnoringGuaranteed: never list in ignoring(...) a label that an operand names in an = / =~ matcher,
+	// as label_replace/label_join destination or as count_values label.
+	ExcludeIgnoringGuaranteed bool
+	// ExcludeFnOverRemoved: never wrap a function around an operand that names a label L in an = / =~ matcher
+	// but structurally cannot carry L any more (e.g. abs(sum without(b)(foo{b="1"}))).
+	ExcludeFnOverRemoved bool
+	// ExcludeCountValuesWithout: never emit count_values without(.., L, ..)("L", ...).
+	ExcludeCountValuesWithout bool
+	// Excluded counts how many labels were dropped from a modifier list because of an exclusion
+	// (ExcludedBy has the count per switch).
+	Excluded   int
+	ExcludedBy map[string]int
 }
 
 // Full returns the full grammar.
